@@ -197,10 +197,18 @@ class C03(Property):
         return cases
 
     # ------------------------------------------------------------------ execution
+    # every case keeps its miniredis server (and go-zero's cached client) until the executor
+    # process ends (see harness/overlay/limit): run it on chunks of cases
+    CHUNK = 300
+
     def execute(self, cases, ctx):
-        rc, out, res = vlib.go_test_overlay("./core/limit", OVERLAY, run="TestVerifC03", cases=cases, tag="c03", timeout=1500)
-        if rc != 0 or len(res) != len(cases):
-            raise ExecError("c03 executor rc=%s: %s" % (rc, out[-2500:]))
+        res = []
+        for k in range(0, len(cases), self.CHUNK):
+            part = cases[k:k + self.CHUNK]
+            rc, out, r = vlib.go_test_overlay("./core/limit", OVERLAY, run="TestVerifC03", cases=part, tag="c03", timeout=600)
+            if rc != 0 or len(r) != len(part):
+                raise ExecError("c03 executor rc=%s: %s" % (rc, out[-2500:]))
+            res += r
         for r in res:
             if r.get("err"):
                 raise ExecError("c03 executor: case %s: %s" % (r.get("id"), r["err"]))
